@@ -1,4 +1,4 @@
 SPECIFICATION Spec
-CONSTANTS Peers = {s1}  Probe = probe  LogInAcceptLoop = FALSE  HeadFromWaitStart = FALSE
+CONSTANTS Peers = {s1}  Probe = probe  LogInAcceptLoop = FALSE  HeadFromWaitStart = FALSE  NoMitmWaitLimit = FALSE
 INVARIANTS NotClosedBefore SlowOriginNeverCloses ClosedAtLimit LoopNeverBlocks ProbeNotClosed
 CHECK_DEADLOCK FALSE
